@@ -427,6 +427,58 @@ Proof.
     apply f_equal. rewrite <- !app_assoc. cbn [app length skipn]. rewrite <- ?app_assoc. rewrite app_length, skipn_skipn'. reflexivity.
 Qed.
 
+Definition opts_wire (os : list dopt) : list Z :=
+  concat (map (fun o => be_bytes 2 (op_code o) ++ be_bytes 2 (u16 (n6_len (op_data o))) ++ op_data o) os).
+Definition params_wire (ps : list svcparam) : list Z :=
+  concat (map (fun p => be_bytes 2 (sp_key p) ++ be_bytes 2 (u16 (n6_len (sp_value p))) ++ sp_value p) ps).
+
+Lemma opts_wire_len os : n6_len (opts_wire os) = Z.of_nat (length os) * 4 + sum_len (map op_data os).
+Proof.
+  induction os as [|o r IH]; [reflexivity|]. unfold opts_wire in *. cbn [map concat sum_len fold_right length].
+  lens. unfold sum_len in IH. lia.
+Qed.
+
+Lemma params_wire_len ps : n6_len (params_wire ps) = fold_right (fun p a => 4 + n6_len (sp_value p) + a) 0 ps.
+Proof.
+  induction ps as [|o r IH]; [reflexivity|]. unfold params_wire in *. cbn [map concat fold_right]. lens. lia.
+Qed.
+
+Lemma opt_enc_loop_spec : forall os pre rest off, n6_len (opts_wire os) <= n6_len rest -> off = n6_len pre ->
+  opt_enc_loop os (pre ++ rest) off = Ok ((pre ++ opts_wire os) ++ skipn (length (opts_wire os)) rest).
+Proof.
+  induction os as [|o r IH]; intros pre rest off H ->; cbn [opt_enc_loop].
+  - unfold opts_wire. cbn. rewrite app_nil_r. reflexivity.
+  - unfold opts_wire in *. cbn [map concat] in *.
+    set (body := concat (map (fun o0 => be_bytes 2 (op_code o0) ++ be_bytes 2 (u16 (n6_len (op_data o0))) ++ op_data o0) r)) in *.
+    pose proof (n6_len_nonneg body). pose proof (n6_len_nonneg (op_data o)).
+    rewrite wr16_app by (lens; lia). cbn [obind].
+    rewrite wr16_app by (lens; lia). cbn [obind].
+    rewrite wr_copy_app by (lens; lia). cbn [obind].
+    rewrite IH by (lens; unfold n6_len in *; lia).
+    apply f_equal. rewrite <- !app_assoc. repeat (apply f_equal).
+    rewrite !skipn_skipn'. rewrite !app_length, !be_bytes_length. f_equal; lia.
+Qed.
+
+Lemma svc_enc_loop_spec : forall ps pre rest off, n6_len (params_wire ps) <= n6_len rest -> off = n6_len pre ->
+  svc_enc_loop ps (pre ++ rest) off = Ok ((pre ++ params_wire ps) ++ skipn (length (params_wire ps)) rest).
+Proof.
+  induction ps as [|o r IH]; intros pre rest off H ->; cbn [svc_enc_loop].
+  - unfold params_wire. cbn. rewrite app_nil_r. reflexivity.
+  - unfold params_wire in *. cbn [map concat] in *.
+    set (body := concat (map (fun o0 => be_bytes 2 (sp_key o0) ++ be_bytes 2 (u16 (n6_len (sp_value o0))) ++ sp_value o0) r)) in *.
+    pose proof (n6_len_nonneg body). pose proof (n6_len_nonneg (sp_value o)).
+    rewrite wr16_app by (lens; lia). cbn [obind].
+    rewrite wr16_app by (lens; lia). cbn [obind].
+    rewrite wr_copy_app by (lens; lia). cbn [obind].
+    rewrite IH by (lens; unfold n6_len in *; lia).
+    apply f_equal. rewrite <- !app_assoc. repeat (apply f_equal).
+    rewrite !skipn_skipn'. rewrite !app_length, !be_bytes_length. f_equal; lia.
+Qed.
+
+Lemma wr8_app' pre rest off v : off = n6_len pre -> 1 <= n6_len rest ->
+  wr8 (pre ++ rest) off v = Ok ((pre ++ [v]) ++ skipn 1 rest).
+Proof. intros -> H. destruct rest as [|x t]; [cbn in H; lia|]. rewrite wr8_app by reflexivity. reflexivity. Qed.
+
 Definition rdata_wire (r : rr) : outcome (list Z) :=
   let t := r_type r in
   if t =? T_A then match to4 (r_ip r) with Some ip => Ok ip | None => Err E_ENC end
@@ -444,8 +496,22 @@ Definition rdata_wire (r : rr) : outcome (list Z) :=
   else if t =? T_SRV then
     do n <- name_wire (sv_name (r_srv r)) (rdata_meta r);
     Ok (be_bytes 2 (sv_prio (r_srv r)) ++ be_bytes 2 (sv_weight (r_srv r)) ++ be_bytes 2 (sv_port (r_srv r)) ++ n)
-  else if (t =? T_URI) || (t =? T_NAPTR) || (t =? T_OPT) || (t =? T_RRSIG) || (t =? T_DNSKEY)
-          || (t =? T_SVCB) || (t =? T_HTTPS) then Err E_UNMODELLED
+  else if t =? T_NAPTR then
+    do n <- name_wire (na_repl (r_naptr r)) (rdata_meta r);
+    Ok (be_bytes 2 (na_order (r_naptr r)) ++ be_bytes 2 (na_pref (r_naptr r))
+        ++ txts_wire [na_flags (r_naptr r); na_service (r_naptr r); na_regexp (r_naptr r)] ++ n)
+  else if t =? T_URI then Ok (be_bytes 2 (u_prio (r_uri r)) ++ be_bytes 2 (u_weight (r_uri r)) ++ u_target (r_uri r))
+  else if t =? T_OPT then Ok (opts_wire (r_opt r))
+  else if t =? T_RRSIG then
+    let g := r_rrsig r in
+    do n <- name_wire (sg_signer g) (rdata_meta r);
+    Ok (be_bytes 2 (sg_covered g) ++ [u8 (sg_alg g)] ++ [u8 (sg_labels g)] ++ be_bytes 4 (sg_ottl g) ++ be_bytes 4 (sg_exp g)
+        ++ be_bytes 4 (sg_inc g) ++ be_bytes 2 (sg_tag g) ++ n ++ sg_sig g)
+  else if t =? T_DNSKEY then
+    let k := r_dnskey r in Ok (be_bytes 2 (dk_flags k) ++ [u8 (dk_proto k)] ++ [u8 (dk_alg k)] ++ dk_key k)
+  else if (t =? T_SVCB) || (t =? T_HTTPS) then
+    do n <- name_wire (sb_target (r_svcb r)) (rdata_meta r);
+    Ok (be_bytes 2 (sb_prio (r_svcb r)) ++ n ++ params_wire (sb_params (r_svcb r)))
   else Err E_UNSUPPORTED.
 
 Lemma to4_len ip x : to4 ip = Some x -> n6_len x = 4.
@@ -523,7 +589,65 @@ Proof.
     rewrite (enc_name_spec _ _ _ _ w) by (auto; lensolve). cbn [obind].
     apply f_equal. rewrite <- !app_assoc. repeat (apply f_equal).
     rewrite !skipn_skipn'. rewrite !app_length, !be_bytes_length. f_equal; lia. }
-  match goal with |- context [if ?c then Err E_UNMODELLED else _] => destruct c end; (split; [reflexivity|discriminate]).
+  destruct (r_type r =? T_NAPTR).
+  { destruct (name_size (na_repl (r_naptr r)) (rdata_meta r)) as [a1|e|s] eqn:E1; cbn [obind] in Hs; try discriminate.
+    apply Ok_inj in Hs; subst b. name_ok E1. cbn [obind omap]. pose proof (n6_len_nonneg w).
+    pose proof (txts_wire_len [na_flags (r_naptr r); na_service (r_naptr r); na_regexp (r_naptr r)]) as Ht.
+    cbn [length sum_len fold_right] in Ht.
+    pose proof (n6_len_nonneg (na_flags (r_naptr r))). pose proof (n6_len_nonneg (na_service (r_naptr r))). pose proof (n6_len_nonneg (na_regexp (r_naptr r))).
+    split; [|intros rd Hrd; apply Ok_inj in Hrd; subst rd; lens; lia].
+    rewrite wr16_app by lensolve. cbn [obind].
+    rewrite wr16_app by lensolve. cbn [obind].
+    rewrite txt_loop_spec by lensolve. cbn [obind].
+    rewrite (enc_name_spec _ _ _ _ w) by (auto; lensolve). cbn [obind].
+    apply f_equal. rewrite <- !app_assoc. repeat (apply f_equal).
+    rewrite !skipn_skipn'. rewrite !app_length, !be_bytes_length. f_equal; lia. }
+  destruct (r_type r =? T_URI).
+  { apply Ok_inj in Hs; subst b. cbn [omap]. pose proof (n6_len_nonneg (u_target (r_uri r))).
+    split; [|intros rd Hrd; apply Ok_inj in Hrd; subst rd; lens; lia].
+    rewrite wr16_app by lensolve. cbn [obind].
+    rewrite wr16_app by lensolve. cbn [obind].
+    rewrite wr_copy_app by lensolve.
+    apply f_equal. rewrite <- !app_assoc. repeat (apply f_equal).
+    rewrite !skipn_skipn'. rewrite !app_length, !be_bytes_length. f_equal; lia. }
+  destruct (r_type r =? T_OPT).
+  { apply Ok_inj in Hs; subst b. cbn [omap]. pose proof (opts_wire_len (r_opt r)).
+    split; [|intros rd Hrd; apply Ok_inj in Hrd; subst rd; lia]. apply opt_enc_loop_spec; lia. }
+  destruct (r_type r =? T_RRSIG).
+  { destruct (name_size (sg_signer (r_rrsig r)) (rdata_meta r)) as [a1|e|s] eqn:E1; cbn [obind] in Hs; try discriminate.
+    apply Ok_inj in Hs; subst b. name_ok E1. cbn [obind omap]. pose proof (n6_len_nonneg w). pose proof (n6_len_nonneg (sg_sig (r_rrsig r))).
+    split; [|intros rd Hrd; apply Ok_inj in Hrd; subst rd; lens; lia].
+    rewrite wr16_app by lensolve. cbn [obind].
+    rewrite wr8_app' by lensolve. cbn [obind].
+    rewrite wr8_app' by lensolve. cbn [obind].
+    rewrite wr32_app by lensolve. cbn [obind].
+    rewrite wr32_app by lensolve. cbn [obind].
+    rewrite wr32_app by lensolve. cbn [obind].
+    rewrite wr16_app by lensolve. cbn [obind].
+    rewrite (enc_name_spec _ _ _ _ w) by (auto; lensolve). cbn [obind].
+    rewrite wr_copy_app by lensolve.
+    apply f_equal. rewrite <- !app_assoc. cbn [app]. repeat (apply f_equal).
+    rewrite !skipn_skipn'. repeat (progress (rewrite ?app_length, ?be_bytes_length; cbn [length])). f_equal; lia. }
+  destruct (r_type r =? T_DNSKEY).
+  { apply Ok_inj in Hs; subst b. cbn [omap]. pose proof (n6_len_nonneg (dk_key (r_dnskey r))).
+    split; [|intros rd Hrd; apply Ok_inj in Hrd; subst rd; lens; lia].
+    rewrite wr16_app by lensolve. cbn [obind].
+    rewrite wr8_app' by lensolve. cbn [obind].
+    rewrite wr8_app' by lensolve. cbn [obind].
+    rewrite wr_copy_app by lensolve.
+    apply f_equal. rewrite <- !app_assoc. cbn [app]. repeat (apply f_equal).
+    rewrite !skipn_skipn'. repeat (progress (rewrite ?app_length, ?be_bytes_length; cbn [length])). f_equal; lia. }
+  destruct ((r_type r =? T_SVCB) || (r_type r =? T_HTTPS)).
+  { destruct (name_size (sb_target (r_svcb r)) (rdata_meta r)) as [a1|e|s] eqn:E1; cbn [obind] in Hs; try discriminate.
+    apply Ok_inj in Hs; subst b. name_ok E1. cbn [obind omap]. pose proof (n6_len_nonneg w).
+    pose proof (params_wire_len (sb_params (r_svcb r))) as Hp. pose proof (n6_len_nonneg (params_wire (sb_params (r_svcb r)))).
+    split; [|intros rd Hrd; apply Ok_inj in Hrd; subst rd; lens; lia].
+    rewrite wr16_app by lensolve. cbn [obind].
+    rewrite (enc_name_spec _ _ _ _ w) by (auto; lensolve). cbn [obind].
+    rewrite svc_enc_loop_spec by lensolve.
+    apply f_equal. rewrite <- !app_assoc. repeat (apply f_equal).
+    rewrite !skipn_skipn'. rewrite !app_length, !be_bytes_length. f_equal; lia. }
+  split; [reflexivity|discriminate].
 Qed.
 
 Lemma name_size_nonneg name m a : name_size name m = Ok a -> 0 <= a.
